@@ -5,7 +5,13 @@ for p,mode,sx,d in rows:
     if mode=="a": req.append("compile "+sx)
     elif mode=="u": req.append("compileu "+sx)
     else: req.append("compiled %s %s"%(mode[1:],sx))
-res=subprocess.run(["lake","env","lean","--run","gocheck/Run.lean"],input="\n".join(req)+"\n",capture_output=True,text=True,cwd="..")
+import os
+if os.path.exists("../.lake/build/bin/cxdrv"):   # the built driver (what the harness talks to)
+    cmd=["./.lake/build/bin/cxdrv"]
+else:
+    cmd=["lake","env","lean","--run","gocheck/Run.lean"]
+print("model:"," ".join(cmd))
+res=subprocess.run(cmd,input="\n".join(req)+"\n",capture_output=True,text=True,cwd="..")
 outs=res.stdout.split("\n")
 if res.stderr: print(res.stderr[:2000])
 ok=0;bad=[]
@@ -16,5 +22,21 @@ for (p,mode,sx,d),o in zip(rows,outs):
         ok+=1; stats[k]=stats.get(k,0)+1
     else: bad.append((p,mode,sx,d,o))
 print("rows",len(rows),"identical",ok,"different",len(bad))
+import re as _re
+def kinds(sx):
+    out=set()
+    for g,mn,mx in _re.findall(r"\(rep,([01]),(\d+),(\d+|inf),",sx):
+        if mx=="inf": out.add("{0,}" if mn=="0" else "{1,}" if mn=="1" else "{m>=2,}")
+        elif mn==mx: out.add("{n}")
+        else: out.add("{0,n}" if mn=="0" else "{m,n}")
+        if g=="0": out.add("non-greedy rep")
+    if sx.count("(rep,")>=2: out.add("two or more reps")
+    return out
+cnt={}
+for p,mode,sx,d in rows:
+    ks=kinds(sx)
+    if ks: cnt["any rep"]=cnt.get("any rep",0)+1
+    for k in ks: cnt[k]=cnt.get(k,0)+1
+print("rows with repeats:",cnt)
 print(stats)
 for b in bad[:20]: print(b)
